@@ -7,7 +7,8 @@
 // NULL-or-node pointer makes cbmc explore every case of add_type()/eval2() on an "invalid object" --
 // and the patterns are covered by a constant loop inside the same cbmc query (-DPATSET): 0 = every
 // subset of the 7-leaf bit-field struct; 1 = none, all, each leaf alone, each leaf missing, two
-// alternating patterns and every subset of the four bit-field leaves; 2 = the first six kinds only.
+// alternating patterns and every subset of the four bit-field leaves; 2 = the first six kinds only;
+// 3 = none, all, each leaf missing, alternating.
 // For the union every choice of initialised member (or none) is combined with every pattern.
 // Decided:  static image == reference image (absent => zero, present => value truncated into the
 //           member's bytes / bits at the psABI position), no relocation is produced;
@@ -170,9 +171,16 @@ static unsigned pattern(int j) {
   unsigned m = j - NBASIC;
   return (m & 7) | (m & 8) << 3 | ~0x47u;
 }
-#else                  // basic set only
+#elif PATSET == 2      // basic set only
 #define NPAT NBASIC
 static unsigned pattern(int j) { return basic_pattern(j); }
+#else                  // none, all, each leaf missing, two alternating patterns
+#define NPAT (4 + MAXLEAF)
+static unsigned pattern(int j) {
+  if (j < 2) return basic_pattern(j);
+  if (j < 4) return j == 2 ? 0x5555u : 0xAAAAu;
+  return ~(1u << (j - 4));
+}
 #endif
 static unsigned cur_present;          // bit k: leaf k is present in the current sub-problem
 // umem: union only: 0 = `{}` (no member recorded), k = member k-1 designated
